@@ -314,7 +314,7 @@ func (W) Exec(p *world.Plan, env *world.Env) {
 			x.at = fmt.Sprintf("op#%d %s b%d %s", i, op.K, op.B, vars.Vars[op.T%len(vars.Vars)].Name)
 			simcore.Yield(simcore.SiteOp, uintptr(i))
 			x.step(op)
-			env.Res.Ops++
+			env.Op()
 		}
 		x.at = "final"
 		var bs []int
